@@ -361,6 +361,9 @@ fn generate_frame(out: &mut Out, seed: u64, scripts: u64, len: usize) {
 
 struct PipeState {
     buf: VecDeque<u8>,
+    /// bytes written but not yet flushed: a buffering byte stream (like `BufWriter`, TLS or compression layers) hands
+    /// them to the peer only when its own `poll_flush` / `poll_shutdown` completes; they are lost if the writer is dropped
+    held: Vec<u8>,
     /// the writing end was shut down or dropped
     write_closed: bool,
     read_waker: Option<Waker>,
@@ -373,6 +376,7 @@ impl PipeState {
     fn new(seed: u64) -> Rc<RefCell<PipeState>> {
         Rc::new(RefCell::new(PipeState {
             buf: VecDeque::new(),
+            held: Vec::new(),
             write_closed: false,
             read_waker: None,
             rng: Rng::new(seed),
@@ -430,10 +434,7 @@ impl AsyncWrite for Endpoint {
         }
         p.last_write_pending = false;
         let n = pick_len(&mut p.rng, data.len());
-        p.buf.extend(data[..n].iter().copied());
-        if let Some(w) = p.read_waker.take() {
-            w.wake();
-        }
+        p.held.extend_from_slice(&data[..n]);
         Poll::Ready(Ok(n))
     }
     fn poll_flush(self: Pin<&mut Self>, cx: &mut Context<'_>) -> Poll<io::Result<()>> {
@@ -444,6 +445,11 @@ impl AsyncWrite for Endpoint {
             return Poll::Pending;
         }
         p.last_write_pending = false;
+        let held = std::mem::take(&mut p.held);
+        p.buf.extend(held);
+        if let Some(w) = p.read_waker.take() {
+            w.wake();
+        }
         Poll::Ready(Ok(()))
     }
     fn poll_shutdown(self: Pin<&mut Self>, cx: &mut Context<'_>) -> Poll<io::Result<()>> {
@@ -454,6 +460,8 @@ impl AsyncWrite for Endpoint {
             return Poll::Pending;
         }
         p.last_write_pending = false;
+        let held = std::mem::take(&mut p.held);
+        p.buf.extend(held);
         p.write_closed = true;
         if let Some(w) = p.read_waker.take() {
             w.wake();
